@@ -74,8 +74,10 @@ def close_abs(x, expected, tol10, scale):
 
 
 def limbs(n):
+    """base-10^4 limbs of |n| (total: a negative or non-integer argument cannot loop)"""
+    n = abs(int(n))
     out = []
-    while n:
+    while n > 0:
         n, r = divmod(n, 10000)
         out.append(r)
     return out
@@ -158,21 +160,50 @@ def project_unitful(obj):
     """unit-carrying object (or the plain number 1) -> {"dim": {...}, "si": float}"""
     dim = {k: 0 for k in DIMS}
     if not hasattr(obj, "simplified"):
-        return {"dim": dim, "si": float(obj)}
+        if getattr(obj, "ndim", 0):
+            return {"dim": dim, "si": [_tofloat(v) for v in obj.ravel()]}
+        return {"dim": dim, "si": _tofloat(obj)}
     s = obj.simplified
     names = _dim_names()
     for k, v in s.dimensionality.items():
         name = names.get(k.__class__, k.__class__.__name__)
-        dim[name] = dim.get(name, 0) + int(v)
+        dim[name] = clean_int(dim.get(name, 0) + clean_int(v))
     mag = s.magnitude
-    return {"dim": dim, "si": float(mag) if getattr(mag, "ndim", 0) == 0 else [float(v) for v in mag.ravel()]}
+    return {"dim": dim, "si": _tofloat(mag) if getattr(mag, "ndim", 0) == 0 else [_tofloat(v) for v in mag.ravel()]}
+
+
+def _tofloat(v):
+    """total float projection: whatever cannot be read as a real number becomes nan (equal to no expectation)"""
+    try:
+        return float(v)
+    except (TypeError, ValueError, OverflowError):
+        return float("nan")
 
 
 def project_dimdict(d):
+    """reported dimensionality -> {name: exponent}; an exponent that is not a small integer travels as the
+    sentinel 99 (it equals no expectation)"""
     out = {k: 0 for k in DIMS}
     for k, v in d.items():
-        out[str(k)] = int(v) if float(v) == int(v) else float(v)
+        out[str(k)] = clean_int(v)
     return out
+
+
+def clean_int(v):
+    try:
+        f = float(v)
+        if math.isfinite(f) and f == int(f) and abs(f) < 90:
+            return int(f)
+    except (TypeError, ValueError, OverflowError):
+        pass
+    return 99
+
+
+def finite(x):
+    try:
+        return math.isfinite(float(x))
+    except (TypeError, ValueError, OverflowError):
+        return False
 
 
 def floats(arr):
